@@ -14,7 +14,10 @@ Inductive case :=
 | DialCase (specDcid specScid ipn : Z) (lens : list Z) (single : Z)
            (expl : option (option string)) (ctl : Z) (prefix tail : string) (conftok : option string)
            (* observed on the first Initial packet of a whole dial *)
-           (obsDcid obsScid obsPN obsPNLen : Z) (obsToken : option string) (obsHdrLen : Z).
+           (obsDcid obsScid obsPN obsPNLen : Z) (obsToken : option string) (obsHdrLen : Z)
+| ValidateCase (specDcid specScid ipn : Z) (lens : list Z) (single udpMin : Z) (plans : list (Z * Z)) (maxPacket : Z)
+               (* observed: the whole dial failed with "invalid QUICSpec" before sending anything *)
+               (obsRejected : bool).
 
 Definition ohx (o : option string) : option (list Z) :=
   match o with Some s => Some (hx s) | None => None end.
@@ -74,7 +77,7 @@ Definition dial_obs (specDcid specScid ipn : Z) (lens : list Z) (single : Z)
   {| do_dcid := d; do_scid := s; do_pn := pn; do_pnLen := pl; do_token := tok;
      do_hdr := hdrLen d s (tokLenOf tok) pl |}.
 
-Inductive obs := FObs (o : fobs) | DObs (o : dobs).
+Inductive obs := FObs (o : fobs) | DObs (o : dobs) | VObs (rejected : bool).
 
 Definition model_obs (c : case) : obs :=
   match c with
@@ -82,6 +85,8 @@ Definition model_obs (c : case) : obs :=
     FObs (flight_obs dcid scid ipn lens single expl ctl prefix tail conftok bk plans udpMin maxSize helloLen plens)
   | DialCase specDcid specScid ipn lens single expl ctl prefix tail conftok obsDcid _ _ _ _ _ =>
     DObs (dial_obs specDcid specScid ipn lens single expl ctl prefix tail conftok obsDcid)
+  | ValidateCase specDcid specScid ipn lens single udpMin plans maxPacket _ =>
+    VObs (negb (validateSpec specScid specDcid ipn lens single udpMin plans maxPacket))
   end.
 
 (** an absent token and an empty token give the same wire image; the harness reports what
@@ -96,5 +101,6 @@ Definition check_case (c : case) : bool :=
     && zeqb_list (match do_token o with Some b => b | None => [] end) (match ohx otok with Some b => b | None => [] end)
     && (do_hdr o =? oh)
     && ((specDcid >? 0) || ((upMinConnectionIDLenInitial <=? od) && (od <=? upMaxConnIDLen)))
+  | ValidateCase _ _ _ _ _ _ _ _ orej, VObs r => Bool.eqb r orej
   | _, _ => false
   end.
